@@ -45,7 +45,7 @@
 //! Sort(fetch=k) above never selects the phantom row. The top-k predicate therefore requires exact
 //! rows only at or before the k-th reference value; rows ranking strictly after it may carry a
 //! value that is not better than the group's true aggregate (NULL included).
-//! Genuine finding 1 (thorough tier; open entry `ordered-partial-reduce:spill-order`, case
+//! Genuine finding 1 (FIXED in /repo, commit 8d7ecd5e, no longer excluded; thorough tier; entry `ordered-partial-reduce:spill-order`, case
 //! /verif/regressions/C06/c06/partial-reduce-ordered-spill.json, proposed repair
 //! /verif/fixes/C06-spill-order-ignores-declared-ordering.diff): GroupedHashAggregateStream (the
 //! fallback every PartialReduce stage uses under a finite memory pool) sorts its spill runs by the
@@ -53,7 +53,7 @@
 //! with input ordered on e.g. the 2nd group key the stage's output after a spill is not ordered as
 //! declared ([k1 DESC]); SortPreservingMerge + the ordered Final above then emit a group twice
 //! (64 rows for 63 groups).
-//! Genuine finding 3 (thorough tier; open entry `legacy-stream:list-key:spill`, case
+//! Genuine finding 3 (FIXED in /repo, commit 97d0be6f, no longer excluded; thorough tier; entry `legacy-stream:list-key:spill`, case
 //! /verif/regressions/C06/c06/legacy-list-key-spill.json, proposed repair
 //! /verif/fixes/C06-legacy-merge-recreates-single-column-group-values.diff — the stored case passes
 //! with it under mutrun; cause: `set_input_done_and_produce_output` recreates `group_values` for
@@ -781,26 +781,6 @@ impl Property for C06 {
     }
     fn run(&self, case: &Case) -> CaseResult {
         run_case(case)
-    }
-    fn known_signature(&self, case: &Case) -> Option<String> {
-        // VF_C06_NO_KNOWN=1 (used when verifying the proposed repair) switches the exclusion off
-        if std::env::var_os("VF_C06_NO_KNOWN").is_some() {
-            return None;
-        }
-        // open finding: the GroupedHashAggregateStream fallback (enable_migration_aggregate=false) returns
-        // a group twice when a stage with a List group key spills (root cause not yet isolated)
-        let legacy = case.opts.settings.iter().any(|(k, v)| k.ends_with("enable_migration_aggregate") && v == "false");
-        if legacy && case.opts.mem_limit.is_some() && case.keys.iter().any(|k| k.ty == ColType::ListI32) {
-            return Some("legacy-stream:list-key:spill".into());
-        }
-        // open finding: an ordered aggregate stage running on the GroupedHashAggregateStream fallback
-        // (always the case for PartialReduce under a finite memory pool) sorts its spill runs in
-        // group-schema column order, so after a spill its output no longer has the declared
-        // ordering and an order-dependent parent (SortPreservingMerge + ordered Final) splits groups.
-        if matches!(case.shape, Shape::PartialReduce { .. }) && case.ordered.is_some() && case.opts.mem_limit.is_some() && case.keep_order {
-            return Some("ordered-partial-reduce:spill-order".into());
-        }
-        None
     }
 }
 
